@@ -2,7 +2,7 @@
    to the model's answer and, where the property has an executable spec, the spec's answer.
    Extracted to OCaml; the hand-written driver only parses and prints tokens. *)
 From Coq Require Import ZArith Bool List String.
-From HF Require Import MachInt Outcome GenConsts GenLeap GenUnits GenText Text Duration Epoch Gregorian TimeSeries F64 DurationF64 Views TextFmt TextParse GenUnicode SignedNs Civil LeapSpec TextSpec.
+From HF Require Import MachInt Outcome GenConsts GenLeap GenUnits GenText Text Duration Epoch Gregorian TimeSeries F64 DurationF64 Views TextFmt TextParse GenUnicode SignedNs Civil LeapSpec TextSpec EtTdb EtTdbSpec.
 Import ListNotations.
 Open Scope Z_scope.
 
@@ -667,7 +667,56 @@ Definition dispatch_parse (name : string) (a : list tok) : option (list tok * li
   | _, _ => None
   end.
 
-Definition dispatch (name : string) (a : list tok) : option (list tok * list tok) :=
+(* ------------------------------------------------------------------ ET / TDB (C07) ---- *)
+(* sinbits: the platform sine on bit patterns, supplied by the driver (an oracle, not an extracted constant) *)
+Definition is_uniform_id (t : Z) : bool := (t =? 0) || (t =? 1) || (t =? 5) || (t =? 6) || (t =? 7) || (t =? 8).
+Definition is_float_id (t : Z) : bool := (t =? 2) || (t =? 3).
+Definition SPAN_10K_YEARS_NS : Z := 10000 * 36525 * NS_PER_DAY / 100.
+Definition delta_of (t : Z) : Z -> Z := if t =? 2 then delta_et_sc else delta_tdb_sc.
+(* spec count range (ns) of the conversion of (t1, v) to t2, tolerance tol *)
+Definition spec_convf (t1 v t2 tol : Z) : option (Z * Z) :=
+  if is_uniform_id t1 && is_float_id t2 then
+    match sinstant t1 v with
+    | Some i => if Z.abs (i - J2000_NS) <=? SPAN_10K_YEARS_NS then Some (ns_range (et_of_tai_sc (delta_of t2) i) tol) else None
+    | None => None
+    end
+  else if is_float_id t1 && is_uniform_id t2 then
+    if Z.abs v <=? SPAN_10K_YEARS_NS then
+      match spec_scale_zero_tai t2 with
+      | Some z => let '(lo, hi) := ns_range (tai_of_et_sc (delta_of t1) v) tol in Some (lo - z, hi - z)
+      | None => None
+      end
+    else None
+  else None.
+Definition dispatch_ettdb (sinbits : Z -> Z) (name : string) (a : list tok) : option (list tok * list tok) :=
+  let sin64 := fun x => f_of_bits (sinbits (f_to_bits x)) in
+  let conv := fun e t => to_time_scale_all sin64 e (ts_of_Z t) in
+  match name, a with
+  | "convf"%string, [TZ c; TZ n; TZ t1; TZ t2] =>
+      let t1 := norm_ts t1 in let t2 := norm_ts t2 in
+      Some ([TZ (val (dur (conv (mk_epoch c n t1) t2)))],
+            match spec_convf t1 (pval c n) t2 30 with Some (lo, hi) => [TRange lo hi] | None => nospec end)
+  | "rtf"%string, [TZ c; TZ n; TZ t1; TZ t2] =>
+      let t1 := norm_ts t1 in let t2 := norm_ts t2 in let v := pval c n in
+      Some ([TZ (val (dur (conv (conv (mk_epoch c n t1) t2) t1)))],
+            if is_uniform_id t1 && is_float_id t2 then
+              match sinstant t1 v with
+              | Some i => if Z.abs (i - J2000_NS) <=? SPAN_10K_YEARS_NS then [TRange (v - 20) (v + 20)] else nospec
+              | None => nospec end
+            else nospec)
+  | "ordf"%string, [TZ c1; TZ n1; TZ c2; TZ n2; TZ t1; TZ t2] =>
+      let t1 := norm_ts t1 in let t2 := norm_ts t2 in let v1 := pval c1 n1 in let v2 := pval c2 n2 in
+      let x := val (dur (conv (mk_epoch c1 n1 t1) t2)) in let y := val (dur (conv (mk_epoch c2 n2 t1) t2)) in
+      Some ([tcmp (Z.compare x y)],
+            if ((is_uniform_id t1 && is_float_id t2) || (is_float_id t1 && is_uniform_id t2)) && (100 <? Z.abs (v1 - v2))
+               && (Z.abs v1 <=? SPAN_10K_YEARS_NS + J2000_NS) && (Z.abs v2 <=? SPAN_10K_YEARS_NS + J2000_NS)
+               && (- SPAN_10K_YEARS_NS <=? v1) && (- SPAN_10K_YEARS_NS <=? v2)
+            then [tcmp (Z.compare v1 v2)] else nospec)
+  | _, _ => None
+  end.
+
+Definition dispatch (sinbits : Z -> Z) (name : string) (a : list tok) : option (list tok * list tok) :=
+  match dispatch_ettdb sinbits name a with Some r => Some r | None =>
   match dispatch_parse name a with Some r => Some r | None =>
   match dispatch_text name a with Some r => Some r | None =>
   match dispatch_views name a with Some r => Some r | None =>
@@ -678,7 +727,7 @@ Definition dispatch (name : string) (a : list tok) : option (list tok * list tok
             | Some r => Some r
             | None => dispatch_calendar name a
             end
-  end end end end end.
+  end end end end end end.
 
 (* decimal I/O helpers for the driver, so that the OCaml side needs no bignum code *)
 
